@@ -26,6 +26,7 @@ EXPLANATION = (
 def run(ctx: Ctx):
     repo = ctx.repo
     guards.rule_enter_guards(ctx, "LOC", "D1/D2")
+    ctx.attempt(rules.rule_activity_writes, ctx, "D1")  # the guards above bind only if activities are installed through enter()
     guards.rule_enter_guards(ctx, "PREV", "D5")
     validator(ctx)
     arrival(ctx)
